@@ -30,3 +30,27 @@ def wf_lrubytes(s):
             and s._bytes == msum(s._map, 'cost')
             and implies(s.max_entries > 0, len(s._map) <= s.max_entries)
             and implies(s.max_bytes > 0, s._bytes <= s.max_bytes))
+
+
+@spec
+def moved_to_mru(q, oldq, key):
+    """q is oldq with the (unique) occurrence of key moved to the end"""
+    return (len(q) == len(oldq) and len(q) >= 1 and q[len(q) - 1] == key and
+            exists(p, 0 <= p < len(oldq), oldq[p] == key
+                   and forall(i, 0 <= i < p, q[i] == oldq[i])
+                   and forall(i, p <= i < len(q) - 1, q[i] == oldq[i + 1])))
+
+
+@spec
+def wf_detlru(s):
+    return (s.cap >= 0 and s.enabled == (s.cap > 0) and len(s._q) == len(s._map)
+            and forall(i, 0 <= i < len(s._q), s._q[i] in s._map)
+            and distinct_seq(s._q)
+            and len(s._map) <= s.cap)
+
+
+@spec
+def wf_ring(s):
+    return (s.k >= 0 and s.enabled == (s.k > 0) and len(s._q) <= s.k
+            and forall((x, 'str'), x in s._ref, s._ref[x] > 0)
+            and implies(not s.enabled, len(s._q) == 0 and len(s._ref) == 0))
